@@ -5,6 +5,7 @@ package main
 import (
 	"fmt"
 	"math/rand"
+	"net/netip"
 	"strings"
 
 	"github.com/AdguardTeam/urlfilter"
@@ -34,6 +35,8 @@ var grammarLines = []string{
 	"|http://example.org/|", "||example.org/*", "^$client=1.1.1.1", "a$domain=b.c", "||x^$badfilter", "@@||x^$document", "@@||x^$elemhide,generichide",
 	"||example.org^$match-case", "||example.org^$~third-party,~script", "|https://*examp", "://", "||", "|", "*", "@@", "$", "$$", "##", "#@#", "$domain=",
 	"||example.org^$", "||example.org^$,", "||example.org^$domain=", "||example.org^$client=", "||example.org^$dnsrewrite=;", "||a^$replace=/x/y/", "||a^$csp=script-src 'none'",
+	"_$domain=example.org", "-$domain=b.c", "^$ctag=a", "/*$client=1.1.1.1", "~$dnstype=A", "%$denyallow=x.com",
+	"! " + "----------------------------------------------------------------" + "||example.org^",
 	"||example.org^$domain=example.*", "||example.org^$domain=*.example.org", "example.*##.x", "[Adblock Plus 2.0]", "||пример.рф^", "xn--e1afmkfd.xn--p1ai", "||example.org^$popup",
 }
 
@@ -63,6 +66,17 @@ func driveRequests(rnd *rand.Rand) []*rules.Request {
 	urls := []string{"http://example.org/", "https://sub.example.org/ads/banner1.js?x=1", "http://localhost/", "https://example.com/a/b", "ws://x/", "", "http://", "://", "http://[::1]:8080/x", "stun:example.org", strings.Repeat("http://a/", 600)}
 	for _, u := range urls {
 		out = append(out, rules.NewRequest(u, urls[rnd.Intn(len(urls))], rules.RequestType(1<<uint(rnd.Intn(12)))))
+	}
+	// requests that satisfy the restricting modifiers short patterns need, so that their pattern is really evaluated
+	for _, src := range []string{"http://example.org/", "http://b.c/", "https://sub.example.org/x"} {
+		out = append(out, rules.NewRequest("http://example.org/_-^~%/a*b", src, rules.TypeScript))
+	}
+	for _, h := range []string{"example.org", "a_b-c.example.org"} {
+		q := rules.NewRequestForHostname(h)
+		q.ClientIP = netip.MustParseAddr("1.1.1.1")
+		q.SortedClientTags = []string{"a"}
+		q.DNSType = 1
+		out = append(out, q)
 	}
 	for _, h := range []string{"example.org", "sub.example.org", "localhost", "1.2.3.4", "", ".", "a..b", "::1", strings.Repeat("a", 300)} {
 		q := rules.NewRequestForHostname(h)
@@ -140,6 +154,9 @@ func cmdDriveLines(args []string) error {
 			line = listLines[rnd.Intn(len(listLines))]
 		default:
 			line = mutateBytes(rnd, listLines[rnd.Intn(len(listLines))])
+		}
+		if rnd.Intn(40) == 0 {
+			line = "! " + strings.Repeat("-", 4090+rnd.Intn(12)) + line
 		}
 		if rnd.Intn(6) == 0 {
 			line = []string{" ", "\t", " ", "\r"}[rnd.Intn(4)] + line + []string{" ", "\r", "\t \t"}[rnd.Intn(3)]
